@@ -520,19 +520,21 @@ func gen(seed uint64, tier string) []interface{} {
 		id++
 		out = append(out, c)
 	}
-	out = append(out, longReset(r.Fork(), id, "roach", r.Bool(), int64(r.Pick([]int{1, -1}))))
-	id++
-	out = append(out, longReset(r.Fork(), id, "abaco", r.Bool(), int64(r.Pick([]int{1, -1}))))
-	id++
-	if tier == "thorough" {
-		for i := 0; i < 12; i++ {
-			out = append(out, longReset(r.Fork(), id, []string{"roach", "abaco"}[r.Intn(2)], r.Bool(), int64(r.Pick([]int{1, -1}))))
-			id++
-		}
-	}
 	for i := 0; i < n; i++ {
 		out = append(out, genCase(r.Fork(), id, tier))
 		id++
+	}
+	// the long streams go last: if something is wrong, shorter cases are reported (and shrunk) first
+	rl := lib.NewRng(seed ^ 0x5bd1e995)
+	out = append(out, longReset(rl.Fork(), id, "roach", rl.Bool(), int64(rl.Pick([]int{1, -1}))))
+	id++
+	out = append(out, longReset(rl.Fork(), id, "abaco", rl.Bool(), int64(rl.Pick([]int{1, -1}))))
+	id++
+	if tier == "thorough" {
+		for i := 0; i < 12; i++ {
+			out = append(out, longReset(rl.Fork(), id, []string{"roach", "abaco"}[rl.Intn(2)], rl.Bool(), int64(rl.Pick([]int{1, -1}))))
+			id++
+		}
 	}
 	return out
 }
